@@ -369,54 +369,138 @@ theorem legacy_time_loses_seconds : legacyTimeRoundtrip 3661 = 3660 ∧ legacyTi
 
 /-! ### simple controls -/
 
-/-- **`control_line_roundtrip`**: for every simple control (status / setting / speed token opaque) on a time, a clock time or
-a node threshold, reading the line that was written gives the control back, a head condition coming back as the same
+/-- **`control_action_roundtrip`**: status OPEN/CLOSED/ACTIVE, pump speed, valve setting -/
+theorem control_action_roundtrip (k : LinkKind) (a : Act) (hw : a.wf k) :
+    ∃ t, printAct a = some t ∧ parseAct k t = some a := by
+  cases a with
+  | status s =>
+    obtain ⟨h0, h2⟩ := hw
+    have : s = 0 ∨ s = 1 ∨ s = 2 := by omega
+    rcases this with rfl | rfl | rfl <;> exact ⟨_, rfl, by simp [parseAct]⟩
+  | speed v => simp only [Act.wf] at hw; subst hw; exact ⟨_, rfl, rfl⟩
+  | setting v => simp only [Act.wf] at hw; subst hw; exact ⟨_, rfl, rfl⟩
+
+/-- the full statement without the kind hypothesis is false: a `setting` action on a PUMP is written as a bare number and
+read back as `base_speed` (key controls-action-pump-setting-read-as-base_speed; not produced by the generator) -/
+theorem control_action_counterexample : ¬ (∀ (k : LinkKind) (a : Act), ∃ t, printAct a = some t ∧ parseAct k t = some a) := by
+  intro h
+  obtain ⟨t, h1, h2⟩ := h .pump (.setting 5)
+  simp only [printAct, Option.some.injEq] at h1
+  subst h1
+  revert h2
+  decide
+
+/-- **`control_line_roundtrip`**: for every simple control (status / speed / setting action) on a time, a clock time or a
+node threshold, reading the line that was written gives the control back, a head condition coming back as the same
 condition in the section's datum (level of a tank, pressure of a junction) -/
-theorem control_line_roundtrip (lookup : String → Option (NodeKind × Int)) (c : Ctl) (hw : c.cond.wf lookup) :
-    parseCtl lookup (printCtl c) = some { c with cond := c.cond.norm } := by
-  obtain ⟨lt, l, st, cond⟩ := c
+theorem control_line_roundtrip (lookup : String → Option (NodeKind × Int)) (kindOf : String → Option LinkKind) (c : Ctl) (k : LinkKind)
+    (hk : kindOf c.link = some k) (ha : c.act.wf k) (hw : c.cond.wf lookup) :
+    ∃ toks, printCtl c = some toks ∧ parseCtl lookup kindOf toks = some { c with cond := c.cond.norm } := by
+  obtain ⟨lt, l, act, cond⟩ := c
+  obtain ⟨t, hp, hq⟩ := control_action_roundtrip k act ha
+  simp only at hk
+  refine ⟨[Tok.word lt, .word l, t] ++ condToks cond, by simp [printCtl, hp], ?_⟩
   cases cond with
   | time sec =>
     have := time_hms_roundtrip sec hw
-    simp only [printCtl, List.cons_append, List.nil_append, parseCtl, CtlCond.norm]
-    simp [this]
+    simp [condToks, parseCtl, hk, hq, CtlCond.norm, this]
   | clock sec =>
     have := time_hms_roundtrip sec hw
-    simp only [printCtl, List.cons_append, List.nil_append, parseCtl, CtlCond.norm]
-    simp [this]
-  | node k n e a ab th =>
+    simp [condToks, parseCtl, hk, hq, CtlCond.norm, this]
+  | node nk n e a ab th =>
     obtain ⟨hl, _⟩ := hw
-    cases ab <;> simp [printCtl, parseCtl, hl, CtlCond.norm]
+    cases ab <;> simp [condToks, parseCtl, hk, hq, hl, CtlCond.norm]
 
 /-- exact round trip on the fragment the [CONTROLS] syntax expresses directly -/
-theorem control_line_roundtrip_exact (lookup : String → Option (NodeKind × Int)) (c : Ctl) (hw : c.cond.wf lookup)
-    (hattr : ∀ k n e a ab th, c.cond = .node k n e a ab th → a = k.attr) :
-    parseCtl lookup (printCtl c) = some c := by
-  rw [control_line_roundtrip lookup c hw]
-  obtain ⟨lt, l, st, cond⟩ := c
+theorem control_line_roundtrip_exact (lookup : String → Option (NodeKind × Int)) (kindOf : String → Option LinkKind) (c : Ctl) (k : LinkKind)
+    (hk : kindOf c.link = some k) (ha : c.act.wf k) (hw : c.cond.wf lookup)
+    (hattr : ∀ nk n e a ab th, c.cond = .node nk n e a ab th → a = nk.attr) :
+    ∃ toks, printCtl c = some toks ∧ parseCtl lookup kindOf toks = some c := by
+  obtain ⟨toks, h1, h2⟩ := control_line_roundtrip lookup kindOf c k hk ha hw
+  refine ⟨toks, h1, ?_⟩
+  rw [h2]
+  obtain ⟨lt, l, act, cond⟩ := c
   cases cond with
   | time _ => rfl
   | clock _ => rfl
-  | node k n e a ab th =>
-    have := hattr k n e a ab th rfl
+  | node nk n e a ab th =>
+    have := hattr nk n e a ab th rfl
     subst this
-    cases k <;> simp [CtlCond.norm, NodeKind.attr]
+    cases nk <;> simp [CtlCond.norm, NodeKind.attr]
 
 /-- the statement for the writer BEFORE the repair (threshold of a head condition written unchanged) … -/
 def LegacyControlRoundtrip : Prop :=
-  ∀ (lookup : String → Option (NodeKind × Int)) (c : Ctl), c.cond.wf lookup →
-    parseCtl lookup (printCtlLegacy c) = some { c with cond := c.cond.norm }
+  ∀ (lookup : String → Option (NodeKind × Int)) (kindOf : String → Option LinkKind) (c : Ctl) (k : LinkKind),
+    kindOf c.link = some k → c.act.wf k → c.cond.wf lookup →
+    ∃ toks, printCtlLegacy c = some toks ∧ parseCtl lookup kindOf toks = some { c with cond := c.cond.norm }
 
 /-- … is false: `Tank T1 head > 24` (elevation 20) came back as `level > 24` instead of `level > 4` -/
 theorem legacy_control_head_counterexample : ¬ LegacyControlRoundtrip := by
   intro h
-  have := h (fun _ => some (.tank, 20)) ⟨"Pipe", "P2", .word "Open", .node .tank "T1" 20 .head true 24⟩ ⟨rfl, Or.inl rfl⟩
-  revert this
+  obtain ⟨toks, h1, h2⟩ := h (fun _ => some (.tank, 20)) (fun _ => some .pipe) ⟨"Pipe", "P2", .status 1, .node .tank "T1" 20 .head true 24⟩ .pipe rfl
+    (by simp [Act.wf]) ⟨rfl, Or.inl rfl⟩
+  simp only [printCtlLegacy, printAct, statusWord, Option.map_some, Option.some.injEq] at h1
+  subst h1
+  revert h2
   decide
 
 /-- non-vacuity -/
-example : parseCtl (fun _ => some (.tank, 20)) (printCtl ⟨"Pipe", "P2", .word "Open", .node .tank "T1" 20 .head true 24⟩) =
-    some ⟨"Pipe", "P2", .word "Open", .node .tank "T1" 20 .level true 4⟩ := by decide
+example : (printCtl ⟨"Pipe", "P2", .status 1, .node .tank "T1" 20 .head true 24⟩).bind (parseCtl (fun _ => some (.tank, 20)) (fun _ => some .pipe)) =
+    some ⟨"Pipe", "P2", .status 1, .node .tank "T1" 20 .level true 4⟩ := by decide
+
+/-! ### rule clauses -/
+
+theorem parseRel_symbol (r : Rel) : parseRel r.symbol = some r := by cases r <;> decide
+theorem parseRel_text (r : Rel) : parseRel r.text = some r := by cases r <;> decide
+
+theorem parseVal_valTok (attr : String) (v : Int) (h : attr = "status" → 0 ≤ v ∧ v ≤ 2) :
+    ∃ t, valTok attr v = some t ∧ parseVal t = some v := by
+  by_cases ha : attr = "status"
+  · obtain ⟨h0, h2⟩ := h ha
+    have : v = 0 ∨ v = 1 ∨ v = 2 := by omega
+    rcases this with rfl | rfl | rfl
+    · exact ⟨.word "closed", by simp [valTok, ha, statusWord], by simp [parseVal]⟩
+    · exact ⟨.word "open", by simp [valTok, ha, statusWord], by simp [parseVal]⟩
+    · exact ⟨.word "active", by simp [valTok, ha, statusWord], by simp [parseVal]⟩
+  · exact ⟨.num v, by simp [valTok, ha], rfl⟩
+
+/-- **`rule_atom_roundtrip`**: every premise kind the writer produces — SYSTEM TIME, SYSTEM CLOCKTIME (12-hour clock), and
+`CLASS id attribute relation value` on nodes and links incl. status premises — is read back as itself -/
+theorem rule_atom_roundtrip (a : RAtom) (hw : a.wf) : ∃ toks, printAtom a = some toks ∧ parseAtom toks = some a := by
+  cases a with
+  | sysTime r sec =>
+    refine ⟨_, rfl, ?_⟩
+    simp only [parseAtom, parseRel_text, Option.map_some, time_hms_roundtrip sec hw]
+  | sysClock r sec =>
+    refine ⟨_, rfl, ?_⟩
+    have := clock_roundtrip sec hw.1 hw.2
+    simp only [secToClock] at this
+    simp only [parseAtom, parseRel_text, Option.map_some, this]
+  | value isNode cls n at_ r v =>
+    obtain ⟨hcls, hsys, hst⟩ := hw
+    obtain ⟨t, ht, hv⟩ := parseVal_valTok at_ v hst
+    refine ⟨[.word cls, .word n, .word at_, .word r.symbol, t], by simp [printAtom, ht], ?_⟩
+    have hne : ¬ (cls = "system") := hsys
+    cases isNode with
+    | true =>
+      simp only [if_true] at hcls
+      have hmem : cls ∈ nodeClasses := by simpa using hcls
+      simp [parseAtom, hne, parseRel_symbol, hv, hmem]
+    | false =>
+      simp only [Bool.false_eq_true, if_false] at hcls
+      have hmem : cls ∈ linkClasses := by simpa using hcls.1
+      have hnot : cls ∉ nodeClasses := by simpa using hcls.2
+      simp [parseAtom, hne, parseRel_symbol, hv, hmem, hnot]
+
+/-- **`rule_action_roundtrip`**: `THEN/ELSE CLASS id attribute = value` (status by name, setting as a number) -/
+theorem rule_action_roundtrip (clsOf : String → String) (a : RAction) (h : a.attr = "status" → 0 ≤ a.v ∧ a.v ≤ 2) :
+    ∃ toks, printRAction clsOf a = some toks ∧ parseRAction toks = some a := by
+  obtain ⟨t, ht, hv⟩ := parseVal_valTok a.attr a.v h
+  obtain ⟨n, at_, v⟩ := a
+  exact ⟨[.word (clsOf n), .word n, .word at_, .word "=", t], by simp [printRAction, ht], by simp [parseRAction, hv]⟩
+
+/-- a check-valve status (3) has no word the reader knows: the hypothesis on status values is needed -/
+example : printAtom (.value false "pipe" "P1" "status" .eq 3) = none := by decide
 
 /-! ### rules -/
 
